@@ -10,7 +10,15 @@ RULE = ('drafts 02/03 x record sizes {1..8 exhaustively with every payload lengt
 EXHAUSTIVE = {'quick': 'record sizes 1..8 x payload lengths 0..4rs+1 x both drafts', 'thorough': 'record sizes 1..8 x payload lengths 0..4rs+1 x both drafts'}
 
 agree = Base.agree; nontrivial = Base.nontrivial; signature = Base.signature; explain = Base.explain
-classify = Base.classify
+
+
+def classify(op, m):
+    o = op.split(' ')[0]
+    if o.startswith('mice.enc'):
+        return o + ':' + op.split(' ')[1] + ':' + m.split(' ')[0]
+    if o.startswith('mice'):
+        return o + ':' + op.split(' ')[1] + ':' + m.split(' ')[-1]
+    return o + ':' + m.split(' ')[0]
 
 
 def generate(tier, rng):
